@@ -138,11 +138,11 @@ S += [
   dict(IT, id='it_inc', sig=r'iterator& operator\+\+\(\)',
        c_sig='static struct iterator* it_inc(struct iterator* self)',
        post_subst=[(r'return \(\*self\);', 'return self;', 'return_this')],
-       must_fire={'subst:return_this': 1, 'A_LOAD': 1, 'method:acquire_if_equal': 1, 'method:find': 1, 'self_call:move_to_next_bucket': 1, 'method:get_hash': 1}),
+       must_fire={'subst:return_this': 1, 'method:acquire_if_equal': 1, 'method:find': 1, 'self_call:move_to_next_bucket': 1, 'method:get_hash': 1}),
 ]
 def UW(L, NB):
   return ['hmm_find.0:2', 'hmm_find.1:1', 'hmm_find.2:1', 'hmm_find.3:1', 'hmm_find.4:%d' % (L + 1), 'hmm_find.5:%d' % (L + 1),
-          'hmm_emplace_or_get.0:1', 'hmm_do_get_or_emplace_lazy.0:1', 'hmm_erase_key.0:1', 'hmm_erase_it.0:1', 'it_move_to_next_bucket.0:%d' % max(NB, 1)]
+          'hmm_emplace_or_get.0:1', 'hmm_do_get_or_emplace_lazy.0:1', 'hmm_erase_key.0:1', 'hmm_erase_it.0:1', 'it_move_to_next_bucket.0:%d' % max(NB, 1), 'it_inc.0:1']
 def RUN(entry, NB, L, memo, tiers=('quick', 'thorough'), word=None, **kw):
   d = dict(id='%s_b%d_l%d_m%d%s' % (entry[2:], NB, L, memo, '_w64' if word else ''), entry=entry, cls='shape-complete',
            defs={'NB': NB, 'L': L, 'XV_MEMO': memo}, unwindset=UW(L, NB), tiers=list(tiers),
@@ -154,14 +154,25 @@ UNIT['runs'] += [
   dict(id='map_to_bucket_b1', entry='h_map_to_bucket', cls='unbounded', defs={'NB': 1}),
   dict(id='map_to_bucket_b2', entry='h_map_to_bucket', cls='unbounded', defs={'NB': 2}),
 ]
+CALLERS = ('h_lookup', 'h_insert', 'h_erase_key', 'h_inc', 'h_erase_it', 'h_begin')
 for memo in (0, 1):
-  for e in ('h_find', 'h_lookup', 'h_insert', 'h_erase_key', 'h_inc', 'h_erase_it', 'h_begin'):
-    UNIT['runs'].append(RUN(e, 2, 3, memo))
+  UNIT['runs'].append(RUN('h_find', 2, 3, memo))
+  for e in CALLERS:
+    r = RUN(e, 2, 3, memo); r['defs']['XV_FIND_CONTRACT'] = 1; r['id'] += '_fc'
+    r['note'] = 'internal find replaced by its executable contract (proved equivalent to the real text by run find_*); ' + r['note']
+    UNIT['runs'].append(r)
+for memo in (0, 1):
+  r = RUN('h_inc_int', 2, 2, memo, mode='INT'); r['unwindset'] = [x for x in UW(3, 2) if not x.startswith('it_inc')] + ['it_inc.0:3']
+  r['note'] = 'INT: one step of another handle (insert / mark / unlink) between any two atomic steps of operator++; real find, run without interference'
+  UNIT['runs'].append(r)
 UNIT['obligations'].update({
+  'hmm.iter.inc.progress': dict(deciding=True, text='[INT] ++ never designates the old element again and moves strictly forward, also when another handle inserts/erases next to cur between its steps (F11)'),
   'hmm.order.total': dict(deciding=True, text='greater_or_equal is the >= of a total order on (hash, key) that is consistent with key equality, for data_without_hash and data_with_hash'),
   'hmm.map_to_bucket.range': dict(deciding=True, text='map_to_bucket(h, num_buckets) < num_buckets'),
   'hmm.find.iff_live': dict(deciding=True, text='internal find / contains / find(key) succeed iff an unmarked node with the key is linked in the bucket'),
   'hmm.find.position': dict(deciding=True, text='after find: cur is the first unmarked node >= (hash,key) or null, prev/save designate its live predecessor (or the start), *prev == cur, next = cur->next'),
+  'hmm.find.contract': dict(deciding=True, text='the real find and the executable contract used as stub in the callers produce the same results and the same post-state from every well-formed state and start'),
+  'hmm.find.requires': dict(deciding=True, text='callers invoke find with a bucket head / linked node of that bucket / unlinked marked node as start, the start preceding the key'),
   'hmm.find.frame': dict(deciding=True, text='find unlinks exactly the marked nodes it passed, retires each exactly once, changes nothing else'),
   'hmm.mem.safe': dict(deciding=True, text='only guarded nodes (or the private new node) are dereferenced; prev is a bucket head or the next field of the node guarded by save; delete only of the unpublished own node'),
   'hmm.insert.iff_absent': dict(deciding=True, text='an insertion succeeds iff no unmarked node has the key; then exactly the new node (given key, given/lazily created value, hash) is linked at its sorted position and nothing else changes; otherwise the existing element is returned and the speculative node is freed (lazy variants: never built)'),
